@@ -110,10 +110,12 @@ package forkchoice
 
 //@ func (fc *ProtoForkChoice) UpdateJustified(ctx, trigger, justified, finalized, justifiedStateBalances) err
 //@   property C10 C17
+//@   opt section=mu
 //@   opt pure_func=justifiedStateBalances
 //@   requires fc != nil && held(fc.mu) == 0 && fc.spec != nil && fc.spec.SLOTS_PER_EPOCH != 0 && fc.protoArray != nil && fc.voteStore != nil
 //@   assigns fc.balances, fc.justified, fc.finalized, fc.pin, ghost(gver), ghost(wver), ghost(vver), ghost(gcache)
 //@   ensures released: held(fc.mu) == 0
+//@   ensures atomic@C17: sections(fc.mu) <= old(sections(fc.mu)) + 1
 //@   ensures stale: old(fc.justified.Epoch) >= justified.Epoch && old(fc.finalized.Epoch) >= finalized.Epoch ==> err == nil && unchanged(fc.justified) && unchanged(fc.finalized) && unchanged(fc.pin) && gver == old(gver) && wver == old(wver) && vver == old(vver)
 //@   ensures applied: err == nil && !(old(fc.justified.Epoch) >= justified.Epoch && old(fc.finalized.Epoch) >= finalized.Epoch) ==> fc.justified == justified && fc.finalized == finalized
 //@   ensures refused_finalized: !(old(fc.justified.Epoch) >= justified.Epoch && old(fc.finalized.Epoch) >= finalized.Epoch) && finalized != old(fc.finalized) && (g_unknown(old(gver), old(fc.finalized.Root), finalized.Root) || !g_insub(old(gver), old(fc.finalized.Root), finalized.Root)) ==> err != nil && unchanged(fc.justified) && unchanged(fc.finalized) && gver == old(gver) && wver == old(wver)
@@ -140,93 +142,123 @@ package forkchoice
 
 //@ func (fc *ProtoForkChoice) SetPin(root, slot) err
 //@   property C10 C17
+//@   opt section=mu
 //@   requires fc != nil && held(fc.mu) == 0 && fc.protoArray != nil
 //@   assigns fc.pin
 //@   ensures released: held(fc.mu) == 0
+//@   ensures atomic@C17: sections(fc.mu) <= old(sections(fc.mu)) + 1
 //@   ensures pinned: err == nil ==> fc.pin != nil && fc.pin.Root == root && fc.pin.Slot == slot
 //@   ensures refused: g_closest_err(gver, root, slot) || g_closest(gver, root, slot).Slot < slot ==> err != nil && unchanged(fc.pin)
 
 //@ func (fc *ProtoForkChoice) Pin() r
 //@   property C17
+//@   opt section=mu
 //@   requires fc != nil && held(fc.mu) == 0
 //@   ensures held(fc.mu) == 0 && r == fc.pin
+//@   ensures atomic@C17: sections(fc.mu) <= old(sections(fc.mu)) + 1
 
 //@ func (fc *ProtoForkChoice) Justified() r
 //@   property C17
+//@   opt section=mu
 //@   requires fc != nil && held(fc.mu) == 0
 //@   ensures held(fc.mu) == 0 && r == fc.justified
+//@   ensures atomic@C17: sections(fc.mu) <= old(sections(fc.mu)) + 1
 
 //@ func (fc *ProtoForkChoice) Finalized() r
 //@   property C17
+//@   opt section=mu
 //@   requires fc != nil && held(fc.mu) == 0
 //@   ensures held(fc.mu) == 0 && r == fc.finalized
+//@   ensures atomic@C17: sections(fc.mu) <= old(sections(fc.mu)) + 1
 
 // (C09) "unknown-target votes change nothing": a vote whose node (headSlot, blockRoot) is not in the graph's view is
 // refused and does not reach the vote store; a vote for a node in view is handed to the vote store (whose rule for
 // newer / older target epochs is ProtoVoteStore.ProcessAttestation's contract).
 //@ func (fc *ProtoForkChoice) ProcessAttestation(index, blockRoot, headSlot) ok
 //@   property C17 C09
+//@   opt section=mu
 //@   requires fc != nil && held(fc.mu) == 0 && fc.protoArray != nil && fc.voteStore != nil
 //@   assigns ghost(vver)
 //@   ensures held(fc.mu) == 0
+//@   ensures atomic@C17: sections(fc.mu) <= old(sections(fc.mu)) + 1
 //@   ensures unknown_target: !g_node(gver, headSlot, blockRoot) ==> !ok && vver == old(vver)
 //@   ensures known_target: g_node(gver, headSlot, blockRoot) ==> vver == old(vver) + 1
 
 //@ func (fc *ProtoForkChoice) CanonicalChain(anchorRoot, anchorSlot) (chain, err)
 //@   property C17
+//@   opt section=mu
 //@   requires fc != nil && held(fc.mu) == 0 && fc.protoArray != nil
 //@   assigns ghost(gcache)
 //@   ensures held(fc.mu) == 0
+//@   ensures atomic@C17: sections(fc.mu) <= old(sections(fc.mu)) + 1
 
 //@ func (fc *ProtoForkChoice) ProcessSlot(parentRoot, slot, justifiedEpoch, finalizedEpoch)
 //@   property C17
+//@   opt section=mu
 //@   requires fc != nil && held(fc.mu) == 0 && fc.protoArray != nil
 //@   assigns ghost(gver)
 //@   ensures held(fc.mu) == 0
+//@   ensures atomic@C17: sections(fc.mu) <= old(sections(fc.mu)) + 1
 
 //@ func (fc *ProtoForkChoice) ProcessBlock(parentRoot, blockRoot, blockSlot, justifiedEpoch, finalizedEpoch) ok
 //@   property C17
+//@   opt section=mu
 //@   requires fc != nil && held(fc.mu) == 0 && fc.protoArray != nil
 //@   assigns ghost(gver)
 //@   ensures held(fc.mu) == 0
+//@   ensures atomic@C17: sections(fc.mu) <= old(sections(fc.mu)) + 1
 
 //@ func (fc *ProtoForkChoice) InSubtree(anchor, root) (unknown, inSubtree)
 //@   property C17
+//@   opt section=mu
 //@   requires fc != nil && held(fc.mu) == 0 && fc.protoArray != nil
 //@   assigns ghost(gcache)
 //@   ensures held(fc.mu) == 0
+//@   ensures atomic@C17: sections(fc.mu) <= old(sections(fc.mu)) + 1
 //@   ensures unknown == g_unknown(gver, anchor, root) && inSubtree == g_insub(gver, anchor, root)
 
 //@ func (fc *ProtoForkChoice) Search(anchor, parentRoot, slot) (nonCanon, canon, err)
 //@   property C17
+//@   opt section=mu
 //@   requires fc != nil && held(fc.mu) == 0 && fc.protoArray != nil
 //@   assigns ghost(gcache)
 //@   ensures held(fc.mu) == 0
+//@   ensures atomic@C17: sections(fc.mu) <= old(sections(fc.mu)) + 1
 
 //@ func (fc *ProtoForkChoice) ClosestToSlot(anchor, slot) (ref, err)
 //@   property C17
+//@   opt section=mu
 //@   requires fc != nil && held(fc.mu) == 0 && fc.protoArray != nil
 //@   ensures held(fc.mu) == 0
+//@   ensures atomic@C17: sections(fc.mu) <= old(sections(fc.mu)) + 1
 
 //@ func (fc *ProtoForkChoice) CanonAtSlot(anchor, slot, withBlock) (closest, err)
 //@   property C17
+//@   opt section=mu
 //@   requires fc != nil && held(fc.mu) == 0 && fc.protoArray != nil
 //@   assigns ghost(gcache)
 //@   ensures held(fc.mu) == 0
+//@   ensures atomic@C17: sections(fc.mu) <= old(sections(fc.mu)) + 1
 
 //@ func (fc *ProtoForkChoice) GetSlot(root) (slot, ok)
 //@   property C17
+//@   opt section=mu
 //@   requires fc != nil && held(fc.mu) == 0 && fc.protoArray != nil
 //@   ensures held(fc.mu) == 0
+//@   ensures atomic@C17: sections(fc.mu) <= old(sections(fc.mu)) + 1
 
 //@ func (fc *ProtoForkChoice) FindHead(anchorRoot, anchorSlot) (ref, err)
 //@   property C17
+//@   opt section=mu
 //@   requires fc != nil && held(fc.mu) == 0 && fc.protoArray != nil && fc.voteStore != nil
 //@   assigns ghost(wver), ghost(vver), ghost(gcache)
 //@   ensures held(fc.mu) == 0
+//@   ensures atomic@C17: sections(fc.mu) <= old(sections(fc.mu)) + 1
 
 //@ func (fc *ProtoForkChoice) Head() (ref, err)
 //@   property C17
+//@   opt section=mu
 //@   requires fc != nil && held(fc.mu) == 0 && fc.protoArray != nil && fc.voteStore != nil && fc.spec != nil && fc.spec.SLOTS_PER_EPOCH != 0
 //@   assigns ghost(wver), ghost(vver), ghost(gcache)
 //@   ensures held(fc.mu) == 0
+//@   ensures atomic@C17: sections(fc.mu) <= old(sections(fc.mu)) + 1
